@@ -310,3 +310,103 @@ def extra_obligations(tier):
         obs.append(dict(name='table:extraction', status='unknown', backend='ast-eval', detail='%s: %s' % (type(ex).__name__, ex),
                         key='table:extraction'))
     return obs
+
+
+# ------------------------------------------------------------------ sequence_from_residues: one value per residue
+ResAtom, AVal17 = TKey('ResAtom'), TKey('AVal17')
+
+
+def setup_sfr(cx):
+    from pyvc.values import IterV
+    from pyvc.builtins import _int
+    firsts = cx.val('FIRST_ATOMS', TSeq(ResAtom))           # the first atom of every residue, in the order of molecule.iter_residues()
+    cx.spec_env['FIRST_ATOMS'] = firsts
+    attr_of = cx.uf('attr_of', [ResAtom], TOpt(AVal17))     # molecule.nodes[atom].get(attribute): None when the atom lacks it
+    default = cx.val('default', TOpt(AVal17))
+    st = TSeq(ResAtom)
+
+    def residues(e):
+        return IterV(st.len(firsts.e), lambda i: Obj('residue_nodes', __getitem__=Builtin(
+            # any other member of the residue is some other atom
+            lambda e2, k: SV(ResAtom, st.at(firsts.e, _int(i))) if k == 0 else cx.val('other_atom', ResAtom),
+            'residue_nodes[]')))
+
+    def node(e, a):
+        ae = to_z3(a, ResAtom)
+
+        def get(e2, key, d=None):
+            if key is not attribute:
+                raise EngineError('node.get of another attribute')
+            dv = to_z3(d, TOpt(AVal17)) if d is not None else TOpt(AVal17).none()
+            return SV(TOpt(AVal17), z3.If(TOpt(AVal17).is_none(attr_of(ae)), dv, attr_of(ae)))
+        return Obj('atomdict', get=Builtin(get, 'node.get'))
+    attribute = Obj('attribute')
+    molecule = Obj('Molecule', iter_residues=Builtin(residues, 'molecule.iter_residues'),
+                   nodes=Obj('NodeView', __getitem__=Builtin(node, 'molecule.nodes[]')))
+    return dict(molecule=molecule, attribute=attribute, default=default)
+
+
+sequence_from_residues = FunctionContract(
+    F, 'sequence_from_residues', 'C17', setup=setup_sfr, spec_env=dict(ResAtom=ResAtom), result_ty=TSeq(TOpt(AVal17)),
+    ensures=[
+        # one value per residue, in the order of the residues: the attribute of the residue's first atom, the default if it has none
+        "len(result) == len(FIRST_ATOMS)",
+        "forall(lambda r: implies(0 <= r and r < len(FIRST_ATOMS), result[r] == (attr_of(FIRST_ATOMS[r]) if attr_of(FIRST_ATOMS[r]) is not None else default)))",
+    ],
+    loops={'L1': LoopSpec(inv=["len(__yielded__) == _i",
+                               "forall(lambda r: implies(0 <= r and r < _i, __yielded__[r] == (attr_of(FIRST_ATOMS[r]) if attr_of(FIRST_ATOMS[r]) is not None else default)))"],
+                          modifies=['__yielded__'])},
+    canary=[("first_name = residue_nodes[0]", "first_name = residue_nodes[-1]"), ("value = first_node.get(attribute, default)", "value = default")],
+)
+CONTRACTS.append(sequence_from_residues)
+
+
+# ------------------------------------------------------------------ convert_dssp_annotation_to_martini: all residues, or none
+def setup_cda(cx):
+    from pyvc.builtins import list_append
+    seq = cx.val('DSSP_SEQ', TSeq(TOpt(AVal17)))            # sequence_from_residues(molecule, from_attribute): by its contract above
+    conv = cx.val('CONVERTED', TSeq(AVal17))                # convert_dssp_to_martini(that sequence)
+    cx.spec_env.update(DSSP_SEQ=seq, CONVERTED=conv)
+    CALLS = cx.heap('ANNOTATED', cx.box('ANNOTATED', TSeq(TInt)))      # calls of annotate_residues_from_sequence (1 = with the converted sequence)
+    DEBUG = cx.heap('DEBUGGED', cx.box('DEBUGGED', TSeq(TInt)))
+    molecule, fa, ta = Obj('Molecule'), Obj('from_attribute'), Obj('to_attribute')
+
+    def sfr(e, m, a):
+        e.oblige(m is molecule and a is fa, 'sequence:of-this-molecule-and-source-attribute')
+        return seq
+
+    def cdm(e, s):
+        e.oblige(isinstance(s, (SV, Box)) and z3.eq(to_z3(s), seq.e), 'converted:the-whole-sequence')
+        return conv
+
+    def ann(e, m, a, s):
+        e.oblige(m is molecule and a is ta and isinstance(s, (SV, Box)) and z3.eq(to_z3(s), conv.e), 'annotated:with-the-converted-sequence-as-target-attribute')
+        list_append(e, CALLS, 1)
+    cx.spec_env['sequence_from_residues'] = Builtin(sfr, 'sequence_from_residues')
+    cx.spec_env['convert_dssp_to_martini'] = Builtin(cdm, 'convert_dssp_to_martini')
+    cx.spec_env['annotate_residues_from_sequence'] = Builtin(ann, 'annotate_residues_from_sequence')
+    cx.spec_env['LOGGER'] = Obj('LOGGER', debug=Builtin(lambda e, *a, **k: list_append(e, DEBUG, 1), 'LOGGER.debug'))
+    cx.spec_env['list'] = Builtin(lambda e, x: x, 'list')
+    return dict(molecule=molecule, from_attribute=fa, to_attribute=ta)
+
+
+SPEC_CDA = {
+    'none_missing': "lambda: forall(lambda r: implies(0 <= r and r < len(DSSP_SEQ), DSSP_SEQ[r] is not None))",
+    'all_missing': "lambda: forall(lambda r: implies(0 <= r and r < len(DSSP_SEQ), DSSP_SEQ[r] is None))",
+}
+convert_annotation = FunctionContract(
+    F, 'convert_dssp_annotation_to_martini', 'C17', setup=setup_cda, spec_defs=SPEC_CDA,
+    requires=["len(old(ANNOTATED)) == 0 and len(old(DEBUGGED)) == 0"],
+    ensures=[
+        # when every residue has a DSSP letter the whole sequence is converted and written back as the target attribute, once; when
+        # none has one nothing is written (a debug message)
+        "implies(none_missing(), len(ANNOTATED) == 1 and len(DEBUGGED) == 0)",
+        "implies(not none_missing(), all_missing() and len(ANNOTATED) == 0 and len(DEBUGGED) == 1)",
+    ],
+    # some residues have a letter and some do not: ValueError, nothing written
+    raises={'ValueError': ["not none_missing() and not all_missing()", "len(ANNOTATED) == 0"]},
+    modifies=['ANNOTATED', 'DEBUGGED'],
+    canary=[("if None not in dssp_sequence:", "if None in dssp_sequence:"),
+            ("annotate_residues_from_sequence(molecule, to_attribute, cg_sequence)", "annotate_residues_from_sequence(molecule, from_attribute, cg_sequence)")],
+)
+CONTRACTS.append(convert_annotation)
